@@ -1,2 +1,21 @@
-"""auxiliary (non-Kani) solver checks, keyed by property id; each fn(scratch, tier, outdir) -> result dict"""
-AUX = {}
+"""auxiliary (non-Kani) solver checks, keyed by property id; each fn(scratch, tier, outdir) -> result dict
+with keys id, status (PASS/FAIL/INCONCLUSIVE), reason, wall_s, queries, obligations, distinct, solver_s"""
+import os
+import sys
+
+VERIF = os.path.dirname(os.path.dirname(os.path.abspath(__file__)))
+sys.path.insert(0, os.path.join(VERIF, "smt"))
+
+
+def c06_tables(scratch, tier, outdir):
+    import zigtables
+    r = zigtables.check(scratch.repo)
+    r["id"] = "c06_tables_smt"
+    r["functions_encoded"] = "constants ZIG_NORM_X/F/R, ZIG_EXP_X/F/R (src/ziggurat_tables.rs), NORM_V/EXP_V (utils/ziggurat_tables.py)"
+    r["bounds"] = "all 4 x 257 entries + 2 tail constants (finite, exhaustive); tolerances 1e-14 (density), 1e-8 relative (areas)"
+    r["distinct"] = r.get("discharged", 0) if r["status"] == "PASS" else 0
+    r["detail"] = r.get("detail")
+    return r
+
+
+AUX = {"C06": [c06_tables]}
